@@ -400,7 +400,7 @@ func formRoundtripCase(cfg *RunCfg, st *Stats, w *CaseWriter, idx int, distinct 
 		w.Add(VL(VS("form"), srcD, dstD), VL(encObs(enc, eo), dec))
 		return
 	}
-	ft := formTypes[r.Intn(len(formTypes))]
+	ft := pickFormType(r)
 	st.Count("form:" + ft.name)
 	src := reflect.New(ft.typ)
 	fillAny(src.Elem(), r, 0)
@@ -409,16 +409,16 @@ func formRoundtripCase(cfg *RunCfg, st *Stats, w *CaseWriter, idx int, distinct 
 	if r.Intn(2) == 0 {
 		arg = src.Elem().Interface()
 	}
-	human := fmt.Sprintf("form %s %+v", ft.name, src.Elem().Interface())
-	if len(human) > 400 {
-		human = human[:400] + "..."
+	human := fmt.Sprintf("form %s %+v", typeHuman(ft), src.Elem().Interface())
+	if len(human) > 1000 {
+		human = human[:1000] + "..."
 	}
 	enc, eo, emsg := guardedMarshal(formC, arg)
 	dec := VS("skip")
 	// destination: zero value of the same type (round trip); sometimes another type
 	dt := ft
 	if r.Intn(12) == 0 {
-		dt = formTypes[r.Intn(len(formTypes))]
+		dt = pickFormType(r)
 		st.Count("form:cross-type")
 	}
 	dst, guard := inArray(r, dt.typ)
@@ -434,8 +434,8 @@ func formRoundtripCase(cfg *RunCfg, st *Stats, w *CaseWriter, idx int, distinct 
 			want = descField(formExpectDirty(old, src.Elem()))
 		}
 		human += fmt.Sprintf(" | into %+v", dst.Elem().Interface())
-		if len(human) > 800 {
-			human = human[:800] + "..."
+		if len(human) > 1400 {
+			human = human[:1400] + "..."
 		}
 	}
 	dstD := descField(dst.Elem())
@@ -460,6 +460,9 @@ func formRoundtripCase(cfg *RunCfg, st *Stats, w *CaseWriter, idx int, distinct 
 					g = g[:300] + "..."
 				}
 				what += " (got " + g + ")"
+				if want == srcD {
+					what += differingFields(src.Elem(), dst.Elem())
+				}
 			}
 			st.Fail(idx, "form-roundtrip", what, human)
 		}
@@ -478,12 +481,12 @@ func formRoundtripCase(cfg *RunCfg, st *Stats, w *CaseWriter, idx int, distinct 
 
 func formGarbageCase(cfg *RunCfg, st *Stats, w *CaseWriter, idx int, distinct DistinctSet) {
 	r := cfg.Rng
-	ft := formTypes[r.Intn(len(formTypes))]
+	ft := pickFormType(r)
 	var data []byte
 	var class string
 	if r.Intn(4) == 0 {
 		// a valid encoding of some value of some type, mutated
-		st0 := formTypes[r.Intn(len(formTypes))]
+		st0 := pickFormType(r)
 		if r.Intn(2) == 0 {
 			st0 = ft
 		}
@@ -536,9 +539,9 @@ func formGarbageCase(cfg *RunCfg, st *Stats, w *CaseWriter, idx int, distinct Di
 		guard = joinGuards(guard, guardSlices(r, dst.Elem()))
 	}
 	dstD := descField(dst.Elem())
-	human := fmt.Sprintf("form decode %q into %s %+v", data, ft.name, dst.Elem().Interface())
-	if len(human) > 500 {
-		human = human[:500] + "..."
+	human := fmt.Sprintf("form decode %q into %s %+v", data, typeHuman(ft), dst.Elem().Interface())
+	if len(human) > 1000 {
+		human = human[:1000] + "..."
 	}
 	do, msg := guardedUnmarshal(formC, data, dst.Interface())
 	if do == oPanic {
@@ -823,7 +826,7 @@ func stripPtrs(s string) string {
 
 func runModel(cfg *RunCfg) {
 	st := NewStats("C11", cfg)
-	st.Rule = "cases = {form round trip over 15 struct types x generated field values (ints at width extremes, strings over all bytes/UTF-8/reserved characters, slices/arrays of length 0..40, nested/tagged/untagged/unexported/pointer fields), url.Values round trip, form decode of typed-key garbage / escape garbage / random bytes / mutated valid encodings into every type (zero or pre-filled), plain round trip over 30 leaf types x {value, pointer}, plain decode of garbage into every destination, socket.Message MarshalBody/UnmarshalBody with every codec id x body {nil, []byte, *[]byte fresh / dirty-longer / dirty-shorter / equal / spare capacity / nil pointer, typed via plain codec or unknown id} x payload {empty, 1 byte, up to 24 bytes} x newBodyFunc}; every destination inside guard zones; distinct by case line; non-trivial = non-empty encoding or non-empty decoder input"
+	st.Rule = "cases = {form round trip over 16 fixed struct types and struct types generated at run time (reflect.StructOf: 1..11 fields, scalar/slice/array/nested kinds, form tags of every shape - absent, empty, plain, name+options after a comma, empty name before the comma, commas only, dash, leading/trailing space, reserved characters, quotes, control bytes, invalid UTF-8, the field's own name, json/xml keys around the form key, two form keys, unconventional format) x generated field values (ints at width extremes, strings over all bytes/UTF-8/reserved characters, slices/arrays of length 0..40, nested/tagged/untagged/unexported/pointer fields), url.Values round trip, form decode of typed-key garbage / escape garbage / random bytes / mutated valid encodings into every type (zero or pre-filled), plain round trip over 30 leaf types x {value, pointer}, plain decode of garbage into every destination, socket.Message MarshalBody/UnmarshalBody with every codec id x body {nil, []byte, *[]byte fresh / dirty-longer / dirty-shorter / equal / spare capacity / nil pointer, typed via plain codec or unknown id} x payload {empty, 1 byte, up to 24 bytes} x newBodyFunc}; every destination inside guard zones; distinct by case line; non-trivial = non-empty encoding or non-empty decoder input"
 	w := NewCaseWriter(cfg)
 	distinct := DistinctSet{}
 	for i := 0; i < cfg.N; i++ {
@@ -842,6 +845,9 @@ func runModel(cfg *RunCfg) {
 		}
 	}
 	flushStability(st, cfg.N-1)
+	for k, n := range dynTagStats.counts {
+		st.Distribution["formtag:"+k] += n
+	}
 	st.Extra = map[string]interface{}{"encodings_kept_alive_model": stabilityHits}
 	st.Evaluations = cfg.N
 	st.DistinctNontrivial = len(distinct)
